@@ -22,7 +22,7 @@ from lbry.wallet.stream import StreamController
 from lbry.wallet.dewies import dewies_to_lbc
 from binascii import unhexlify
 import logging
-from lbry.wallet.network import Network
+from lbry.wallet.network import Network, ClientSession
 from lbry.wallet.rpc.jsonrpc import RPCError
 from lbry.wallet.account import AddressManager
 
@@ -152,6 +152,28 @@ class Instrument:
         self.saved = []
 
 
+_DAEMON = []
+
+
+def daemon_class():
+    """lbry.extras.daemon.daemon.Daemon, imported with in-process mock objects for the third-party modules that are
+    absent here (aioupnp, libtorrent; only unrelated components use them); None if even that fails"""
+    if not _DAEMON:
+        try:
+            import sys
+            from unittest import mock
+            for name in ('aioupnp', 'aioupnp.upnp', 'aioupnp.fault', 'libtorrent'):
+                if name not in sys.modules:
+                    stub = mock.MagicMock()
+                    stub.__version__ = '0'
+                    sys.modules[name] = stub
+            from lbry.extras.daemon.daemon import Daemon
+            _DAEMON.append(Daemon)
+        except Exception:  # noqa
+            _DAEMON.append(None)
+    return _DAEMON[0]
+
+
 class FakeSession:
     """the wallet-server session underneath the REAL lbry.wallet.network.Network (and so underneath the real
     WalletManager / Ledger / WalletServerPayer / Account.fund): per build the server accepts the broadcast, rejects it
@@ -187,6 +209,29 @@ class FakeSession:
             raise ConnectionError('connection to the wallet server lost')
         if mode == 'reject':
             raise RPCError(1, 'the transaction was rejected by network rules.')
+        if mode == 'hangup':
+            # the hub closes the connection in an orderly way (EOF, no error) while the broadcast is pending - a hub
+            # restarting: the request goes through a REAL ClientSession / RPCSession / JSONRPCConnection whose transport
+            # swallows the bytes and then reports the clean close
+            real = ClientSession(network=None, server=self.server)
+
+            class HangupTransport:
+                def write(self_, data):
+                    asyncio.get_event_loop().call_soon(real.connection_lost, None)
+
+                def get_extra_info(self_, name, default=None):
+                    return ('127.0.0.1', 50001) if name == 'peername' else default
+
+                def is_closing(self_):
+                    return False
+
+                def close(self_):
+                    pass
+
+                def abort(self_):
+                    pass
+            real.connection_made(HangupTransport())
+            return await real.send_request(method, args)
         if mode == 'hang':
             await asyncio.Event().wait()
         # accepted: from now on the network knows this transaction and will confirm it
@@ -386,6 +431,14 @@ async def run_concurrent(world, case):
                 res['status'] = 'EXC cancelled broadcast returned'
             except asyncio.CancelledError:
                 res['status'] = 'released'
+        elif act == 'broadcast_hangup':
+            # the hub hangs up cleanly while the broadcast is pending: the transaction was not sent, whatever the call
+            # reports; it is abandoned and its inputs have to be released
+            try:
+                await manager.broadcast_or_release(tx)
+            except (ConnectionError, RPCError, asyncio.TimeoutError):
+                pass
+            res['status'] = 'released'
         elif act == 'broadcast_down':
             # the connection to the wallet server is down when the transaction is handed over: it cannot be sent, so it
             # has to be released
@@ -436,7 +489,7 @@ async def run_concurrent(world, case):
             await asyncio.sleep(0.001)
     ins.after_read = after_read
     hub = FakeSession({b: {'broadcast_fail': 'reject', 'broadcast_cancel': 'hang', 'broadcast_down': 'down',
-                           'payer_down': 'payer', 'fund_reject': 'reject'}.get(d['action'], 'accept')
+                           'payer_down': 'payer', 'fund_reject': 'reject', 'broadcast_hangup': 'hangup'}.get(d['action'], 'accept')
                        for b, d in enumerate(case['builds'])}, events)
     ledger.network = Network(ledger)          # the real Network; only its session is fake
     ledger.network.client = hub
@@ -455,7 +508,16 @@ async def run_concurrent(world, case):
                 await asyncio.sleep(0.001)
         tok = op_label.set(('sync', 'relother%d' % k))
         try:
-            await ledger.db.release_all_outputs(world.accounts[1])
+            if rd.get('via') == 'utxo_release' and daemon_class() is not None:
+                # the daemon command `utxo_release` for this wallet (accounts 0 and 1); the builds of such a case are
+                # funded from an account that is on the same ledger but belongs to no account list of this wallet
+                from unittest import mock
+                dm = mock.MagicMock()
+                dm.wallet_manager.get_wallet_or_default.return_value = world.wallet
+                dm.ledger = ledger
+                await daemon_class().jsonrpc_utxo_release(dm)
+            else:
+                await ledger.db.release_all_outputs(world.accounts[1])
         finally:
             op_label.reset(tok)
         synced.add('o%d' % k)
@@ -685,7 +747,12 @@ def monitor(case, impl, obs):
             pre_checked.add(b)
             want = set(obs['results'].get(b, {}).get('pre_wallet', []))
             if want - (cur - prev):
-                return 'PREMISE'
+                if case['builds'][b].get('fund') == 'everything':
+                    # here the caller is the wallet's own Account.fund: picking outputs that are free is its job, so no
+                    # exemption - the clauses below judge the run (its later funding rounds may add further inputs)
+                    pass
+                else:
+                    return 'PREMISE'
         if kind in ('reserve', 'sqlite'):
             if prev - cur:
                 return 'a reservation by build %d cleared the flag of %s' % (b, sorted(prev - cur))
@@ -937,9 +1004,13 @@ def gen_case(rng, tier):
     if fund == 0 and not two and rng.random() < 0.25:
         for _ in range(rng.choice([1, 1, 2])):
             release_others.append({'delay': rng.choice([0, 5, 15, 40, 80])})
+    elif fund == c03.GHOST and rng.random() < 0.6:
+        # `utxo_release` of the wallet while builds funded from an account outside that wallet are pending
+        for _ in range(rng.choice([1, 1, 2])):
+            release_others.append({'delay': rng.choice([0, 5, 15, 40, 80]), 'via': 'utxo_release'})
     for d in builds:
         if d['action'] in ('broadcast_fail', 'broadcast') and rng.random() < 0.2:
-            d['action'] = 'broadcast_down'
+            d['action'] = rng.choice(['broadcast_down', 'broadcast_down', 'broadcast_hangup'])
     reconnects = []
     if fund == 0 and not two and not locked and rng.random() < 0.12:
         # the periodic wallet-server payer pays its fee: the hub is lost during the send, another build runs in the gap,
@@ -987,6 +1058,8 @@ async def check_concurrent(run, world, model, case, kind, c03_model=None):
     run.count('builds cancelled by their caller', sum(1 for r in obs['results'].values() if r.get('cancelled')))
     if case.get('release_others'):
         run.count('release_all_outputs(another account) during the builds', len(case['release_others']))
+        run.count('... of which through Daemon.jsonrpc_utxo_release', sum(1 for r_ in case['release_others'] if r_.get('via')))
+    run.count('hub hangs up cleanly during the broadcast', sum(1 for d in case['builds'] if d['action'] == 'broadcast_hangup'))
     run.count('broadcast with the connection down', sum(1 for d in case['builds'] if d['action'] == 'broadcast_down'))
     run.count('WalletServerPayer payments losing the hub', sum(1 for d in case['builds'] if d.get('payer')))
     if case.get('reconnects'):
